@@ -14,7 +14,7 @@ from ref import wire
 
 PROPERTY = 'C13'
 META = {
-    'bounds': 'sequentialised connection at protocol 757 (and 47 thorough); '
+    'bounds': 'sequentialised connection at protocol 757 (protocol 47 in the same-name scenario); '
               'listener configurations: 0..2 listeners in each of the four '
               'lists with type filters from {Packet, abstract keep-alive '
               'superclass, concrete class, unrelated class, two matching '
@@ -328,12 +328,6 @@ def instances(tier, seed):
                             budget_s=1800, witness_every=3,
                             max_decisions=100000,
                             note=' '.join('%s/%s' % (a, b) for a, b in cfg)))
-    if tier == 'thorough':
-        for i, cfg in enumerate(FIXED):
-            out.append(Instance('listeners:47:%d' % i, 'listeners',
-                                {'config': [list(c) for c in cfg],
-                                 'pv': 47}, W=96, budget_s=1800,
-                                witness_every=3, max_decisions=100000))
     out.append(Instance('wire_order', 'wire_order', {}, W=96, budget_s=900))
     out.append(Instance('same_name', 'same_name', {}, W=96, budget_s=900))
     out.append(Instance('sentinel:listeners', 'listeners',
